@@ -4,6 +4,7 @@ import (
 	"encoding/json"
 	"flag"
 	"fmt"
+	"go/types"
 	"os"
 	"path/filepath"
 	"sort"
@@ -28,6 +29,7 @@ type runOpts struct {
 	repo      string
 	jobs      int
 	verbose   bool
+	claimed   map[string]bool // obligations in the ledger (nil: treat all as claimed)
 	outDir    string // evidence/ and replays/ are written here (default: verifDir)
 }
 
@@ -192,7 +194,7 @@ func jobsFor(L *Loaded, id string, opt runOpts) ([]unitJob, []*UnitResult) {
 	var jobs []unitJob
 	var missing []*UnitResult
 	for _, c := range L.contracts.order {
-		if c.kind != "func" || c.trusted {
+		if c.kind != "func" || c.trusted || c.opts["impl-only"] == "true" {
 			continue
 		}
 		if id != "" && !contractMentions(c, id) {
@@ -206,6 +208,65 @@ func jobsFor(L *Loaded, id string, opt runOpts) ([]unitJob, []*UnitResult) {
 		for _, fn := range fns {
 			fn, c := fn, c
 			jobs = append(jobs, unitJob{name: shortFuncName(fn), run: func() *UnitResult { return VerifyFunc(L, fn, c, opt) }})
+		}
+	}
+	// implementations of interface methods under contract (behavioural subtyping)
+	for _, c := range L.contracts.order {
+		if c.kind != "iface" || c.trusted || (id != "" && !contractMentions(c, id)) || c.opts["no-impl-check"] == "true" {
+			continue
+		}
+		dot := strings.Index(c.key, ".")
+		if dot < 0 {
+			continue
+		}
+		named, it := L.ifaceByKey(c.pkg, c.key[:dot])
+		if it == nil {
+			continue
+		}
+		mname := c.key[dot+1:]
+		var msig *types.Signature
+		for i := 0; i < it.NumMethods(); i++ {
+			if it.Method(i).Name() == mname {
+				msig = it.Method(i).Type().(*types.Signature)
+			}
+		}
+		if msig == nil {
+			missing = append(missing, missingTarget(c))
+			continue
+		}
+		var fns []*ssa.Function
+		for f := range L.allFuncs {
+			if f.Blocks == nil || f.Parent() != nil || f.Signature.Recv() == nil || baseName(f) != mname || !inRepo(f) {
+				continue
+			}
+			if f.Synthetic != "" && f.Origin() == nil {
+				continue
+			}
+			rt := f.Signature.Recv().Type()
+			if _, isIface := rt.Underlying().(*types.Interface); isIface {
+				continue
+			}
+			if hasTypeParam(rt) {
+				continue
+			}
+			if types.Implements(rt, it) {
+				fns = append(fns, f)
+			}
+		}
+		sort.Slice(fns, func(i, j int) bool { return fns[i].String() < fns[j].String() })
+		for _, fn := range fns {
+			fn := fn
+			cc := *c
+			cc.implOf = msig
+			cc.implIface = named
+			cc.kind = "func"
+			if fc := L.contractOf(fn); fc != nil {
+				// the implementation's own block supplies loop invariants (and may add preconditions)
+				cc.invs = fc.invs
+				cc.requires = append(append([]clause{}, cc.requires...), fc.requires...)
+				fc.used = true
+			}
+			jobs = append(jobs, unitJob{name: shortFuncName(fn) + "$impl", run: func() *UnitResult { return VerifyFunc(L, fn, &cc, opt) }})
 		}
 	}
 	jobs = append(jobs, extraJobs(L, id, opt)...)
@@ -370,6 +431,14 @@ type oblOutcome struct {
 func runCheck(id string, opt runOpts, writeLedger bool) int {
 	t0 := time.Now()
 	L := mustLoad(opt)
+	if !writeLedger {
+		if l := loadLedger(opt, id); l != nil {
+			opt.claimed = map[string]bool{}
+			for _, n := range l.Claimed {
+				opt.claimed[n] = true
+			}
+		}
+	}
 	jobs, missing := jobsFor(L, id, opt)
 	results := append(runJobs(jobs, opt.jobs), missing...)
 	// engine errors are not about the tree
@@ -430,3 +499,26 @@ func funcOfObl(name string) string {
 }
 
 var _ = ssa.NaiveForm
+
+func hasTypeParam(t types.Type) bool {
+	switch u := t.(type) {
+	case *types.TypeParam:
+		return true
+	case *types.Pointer:
+		return hasTypeParam(u.Elem())
+	case *types.Named:
+		if ta := u.TypeArgs(); ta != nil {
+			for i := 0; i < ta.Len(); i++ {
+				if hasTypeParam(ta.At(i)) {
+					return true
+				}
+			}
+		}
+		if tp := u.TypeParams(); tp != nil && tp.Len() > 0 && u.TypeArgs() == nil {
+			return true
+		}
+	case *types.Slice:
+		return hasTypeParam(u.Elem())
+	}
+	return false
+}
